@@ -235,6 +235,18 @@ def setVs (pid fld : Nat) (idx : Option Nat) (nv : V) : List V → List V
   | v :: vs => setV pid fld idx nv v :: setVs pid fld idx nv vs
 end
 
+mutual
+/-- does the tree contain a node with identity `pid`? -/
+def hasId (pid : Nat) : V → Bool
+  | .iface _ v => hasId pid v
+  | .slice _ vs => hasIdL pid vs
+  | .ptr _ id fs => id == pid || hasIdL pid fs
+  | _ => false
+def hasIdL (pid : Nat) : List V → Bool
+  | [] => false
+  | v :: vs => hasId pid v || hasIdL pid vs
+end
+
 /- `usesNameAsTopLevel` -/
 mutual
 def usesName (name : String) : V → Bool
